@@ -1893,3 +1893,225 @@ func rulePFDeferNil(r *Run, rels []string) {
 		o.OK("%d deferred cleanup(s) of values returned with an error, each registered under err == nil", n)
 	}
 }
+
+// ruleParserOptionsReachLexer (PV-ROLE): ParseOptions.AllowDots configures both halves of the
+// front end: the lexer is created with TokenizeOptions{AllowDots: opts.AllowDots} and the
+// parser remembers the same value. A lexer configured from anything else splits dotted label
+// names although the caller allowed them.
+func ruleParserOptionsReachLexer(r *Run) {
+	p := r.P
+	for _, name := range []string{"Parse", "ParseSelector"} {
+		fn := p.Func(logqlPkg, name)
+		o := r.Ob("PV-ROLE", "logql."+name+" options", "the lexer's AllowDots and the parser's allowDots are both the caller's ParseOptions.AllowDots")
+		if fn == nil {
+			o.Fail("-", "function not found")
+			continue
+		}
+		grp := funcGroup(fn)
+		fromOpts := func(v ssa.Value) bool {
+			v = originValueIn(stripTypeOnly(v), grp)
+			f, base, ok := loadOfField(v)
+			if !ok || f != "AllowDots" {
+				return false
+			}
+			return typeKey(derefType(base.Type())) == "ParseOptions"
+		}
+		nLex, nPar := 0, 0
+		bad := false
+		for _, g := range grp {
+			allInstrs(g, func(in ssa.Instruction) {
+				st, ok := in.(*ssa.Store)
+				if !ok {
+					return
+				}
+				f, base, ok := fieldNameOf(st.Addr)
+				if !ok {
+					return
+				}
+				switch {
+				case f == "AllowDots" && typeKey(derefType(base.Type())) == "TokenizeOptions":
+					nLex++
+					if !fromOpts(st.Val) {
+						bad = true
+						o.Fail(r.pos(st.Pos()), "the lexer is configured with AllowDots = %s, not the caller's ParseOptions.AllowDots", describe(st.Val, 1))
+					}
+				case f == "allowDots" && typeKey(derefType(base.Type())) == "parser":
+					nPar++
+					if !fromOpts(st.Val) {
+						bad = true
+						o.Fail(r.pos(st.Pos()), "the parser remembers allowDots = %s, not the caller's ParseOptions.AllowDots", describe(st.Val, 1))
+					}
+				}
+			})
+		}
+		if nLex == 0 || nPar == 0 {
+			bad = true
+			o.Fail(r.pos(fn.Pos()), "lexer option writes=%d parser option writes=%d (expected both)", nLex, nPar)
+		}
+		if !bad {
+			o.OK("TokenizeOptions{AllowDots: opts.AllowDots}; parser{allowDots: opts.AllowDots}").At(r.pos(fn.Pos()))
+		}
+	}
+}
+
+// ruleJSONExprsAllPaths (PV-WHOLE): every `label="expr"` of a json stage is evaluated by the
+// path matcher under its own label: in the loop over the stage's expressions each iteration that
+// parsed its selector stores it into the path table (no expression is diverted to another
+// mechanism, which exposes values in a different spelling).
+func ruleJSONExprsAllPaths(r *Run) {
+	p := r.P
+	fn := p.Func(enginePkg, "buildJSONExtractor")
+	o := r.Ob("PV-WHOLE", "logqlengine.buildJSONExtractor expressions", "every expression of the stage is stored in the path table under its own label: no iteration over the expressions goes on without it")
+	if fn == nil {
+		o.Fail("-", "function not found")
+		return
+	}
+	n := 0
+	bad := false
+	for _, g := range funcGroup(fn) {
+		for _, l := range rangeIndexLoops(g) {
+			// the loop that parses selectors
+			var parse ssa.CallInstruction
+			for b := range l.Blocks {
+				for _, in := range b.Instrs {
+					if c, ok := in.(ssa.CallInstruction); ok {
+						if callee := staticCallee(c); callee != nil && strings.HasSuffix(pkgPathOf(callee), "/"+jsonexprPkg) && cname(callee) == "Parse" {
+							parse = c
+						}
+					}
+				}
+			}
+			if parse == nil {
+				continue
+			}
+			n++
+			var mu *ssa.MapUpdate
+			for b := range l.Blocks {
+				for _, in := range b.Instrs {
+					if m, ok := in.(*ssa.MapUpdate); ok {
+						if mt, ok := m.Map.Type().Underlying().(*types.Map); ok && typeKey(mt.Elem()) == "Path" {
+							mu = m
+						}
+					}
+				}
+			}
+			if mu == nil {
+				bad = true
+				o.Fail(r.pos(parse.Pos()), "parsed selectors are not stored into the path table")
+				continue
+			}
+			if !mustPassThrough(l.Body, l.Header, mu.Block()) {
+				bad = true
+				o.Fail(r.pos(mu.Pos()), "an iteration over the expressions can go on to the next one without storing its selector: that expression is not evaluated by the path matcher")
+			}
+			// stored under the expression's own label and selector
+			if f, _, ok := loadOfField(mu.Key); !ok || f != "Label" {
+				bad = true
+				o.Fail(r.pos(mu.Pos()), "the selector is stored under %s, not under the expression's label", describe(mu.Key, 0))
+			}
+			if c, idx, ok := extractOf(mu.Value); !ok || idx != 0 || c != parse {
+				bad = true
+				o.Fail(r.pos(mu.Pos()), "the stored selector is %s, not the parsed expression", describe(mu.Value, 0))
+			}
+		}
+	}
+	if n == 0 {
+		o.Fail(r.pos(fn.Pos()), "no loop parsing the stage's expressions found")
+		return
+	}
+	if !bad {
+		o.OK("for each expression: paths[p.Label] = Parse(p.Expr) on every non-failing iteration").At(r.pos(fn.Pos()))
+	}
+}
+
+// rulePatternUnnamedExact (PV-GUARD): the only capture of a pattern that is matched but not
+// exposed is the one spelled `<_>`: the test that suppresses a capture is an equality with "_"
+// (directly or in a small helper), never a looser test such as a prefix.
+func rulePatternUnnamedExact(r *Run) {
+	p := r.P
+	const rel = "internal/logql/logqlengine/logqlpattern"
+	fn := p.Func(rel, "Match")
+	o := r.Ob("PV-GUARD", "logqlpattern.Match unnamed capture", "a capture is withheld from the labels iff its name is exactly `_`")
+	if fn == nil {
+		o.Fail("-", "function not found")
+		return
+	}
+	// the callback invocation
+	var cb *ssa.Call
+	for _, c := range callsIn(fn) {
+		if call, ok := c.(*ssa.Call); ok && !call.Call.IsInvoke() && staticCallee(call) == nil {
+			if _, isParam := originValue(call.Call.Value).(*ssa.Parameter); isParam {
+				cb = call
+			}
+		}
+	}
+	if cb == nil {
+		o.Undecide(r.pos(fn.Pos()), "the match callback is not invoked")
+		return
+	}
+	isUnderscoreCmp := func(v ssa.Value) (ok bool, trueWhenUnnamed bool) {
+		b, isB := v.(*ssa.BinOp)
+		if !isB || (b.Op != token.EQL && b.Op != token.NEQ) {
+			return false, false
+		}
+		for _, side := range []ssa.Value{b.X, b.Y} {
+			if s, isS := constStr(side); isS && s == "_" {
+				return true, b.Op == token.EQL
+			}
+		}
+		return false, false
+	}
+	found := false
+	bad := false
+	for _, f := range factsAt(cb.Block()) {
+		if ok, whenUnnamed := isUnderscoreCmp(f.Cond); ok {
+			if f.Truth != whenUnnamed {
+				found = true
+			}
+			continue
+		}
+		// a helper deciding it
+		if call, ok := f.Cond.(*ssa.Call); ok {
+			callee := staticCallee(call)
+			if callee == nil || callee.Blocks == nil || !isFirstParty(pkgPathOf(callee)) {
+				continue
+			}
+			if bt, ok := call.Type().Underlying().(*types.Basic); !ok || bt.Kind() != types.Bool {
+				continue
+			}
+			exact := true
+			hasCmp := false
+			for _, ret := range returnsOf(callee) {
+				for _, lv := range phiLeaves(ret.Results[0]) {
+					if _, isC := constOf(lv); isC {
+						continue
+					}
+					if ok, _ := isUnderscoreCmp(lv); ok {
+						hasCmp = true
+						continue
+					}
+					// conjunctions with the part's kind are fine; anything else is a looser test
+					if b, isB := lv.(*ssa.BinOp); isB && (b.Op == token.EQL || b.Op == token.NEQ) {
+						continue
+					}
+					exact = false
+				}
+			}
+			if len(callee.Params) > 0 && (strings.Contains(strings.ToLower(callee.Name()), "unnamed") || hasCmp || !exact) {
+				if exact && hasCmp {
+					found = true
+				} else if !exact {
+					bad = true
+					o.Fail(r.pos(call.Pos()), "captures are withheld by %s, which is not an equality test with \"_\": names that merely resemble `_` are dropped too", shortFuncName(callee))
+				}
+			}
+		}
+	}
+	if !found && !bad {
+		bad = true
+		o.Fail(r.pos(cb.Pos()), "no test `name != \"_\"` guards the exposure of a capture")
+	}
+	if !bad {
+		o.OK("match(label, value) under label != \"_\"").At(r.pos(cb.Pos()))
+	}
+}
